@@ -15,7 +15,9 @@ type verifHolder struct {
 
 // verifC12Locks: T threads, each with a lock set of 1..2 keys over {a,b}
 // (key and shared/exclusive mode are solver variables), run
-//   TryLock(set); if acquired: critical section; Unlock(acquired)
+//
+//	TryLock(set); if acquired: critical section; Unlock(acquired)
+//
 // exactly as doTxSync does (Unlock of what was acquired also on failure),
 // under every interleaving of the synchronisation operations within the
 // preemption bound. Inside the critical section no key may be held
@@ -74,3 +76,6 @@ func verifC12Locks(T int, maxKeys int, keyHi byte) {
 
 func VerifC12LocksQuick()    { verifC12Locks(3, 1, 'a') }
 func VerifC12LocksThorough() { verifC12Locks(3, 1, 'b') }
+
+// two-key lock sets over {a,b}: partial acquisition followed by refusal is reachable
+func VerifC12LocksPartial() { verifC12Locks(3, 2, 'b') }
